@@ -1,6 +1,7 @@
 """Which contract groups serve which property."""
 PROPERTY_GROUPS = {
     'C02': ['rep'],
+    'C13': ['httprange'],
     'C14': ['events'],
     'C20': ['bufreader'],
 }
